@@ -44,6 +44,8 @@ def report_violation(prop, world, seed, res, repo):
         try:
             ops = core.ddmin(world, prop, res["header"], ops, vclass, res["run_seed"],
                              budget_s=float(os.environ.get("VERIF_SHRINK_S", "30")))
+            ops = core.simplify_ops(world, prop, res["header"], ops, vclass, res["run_seed"],
+                                    budget_s=float(os.environ.get("VERIF_SIMPLIFY_S", "15")))
         except BaseException as e:  # shrinking is best effort
             err("shrink failed:", repr(e))
             ops = res["ops"]
